@@ -1,7 +1,443 @@
-import RbdlProofs.Lemmas.Rot
-/- C12 — property theorems (being filled in) -/
+import RbdlProofs.Lemmas.L12
+import RbdlProofs.Lemmas.L12Ex
+import RbdlProofs.Lemmas.L12Kin
+/-
+  C12 — centre of mass, zero-moment point, kinetic and potential energy (`rbdl_utils.cc`).
+
+  Helper definitions live in `RbdlProofs/Lemmas/L12.lean` (namespace `Rbdl.L12`): `zmpPoint`,
+  `zmpH3`, `zmpTotals`, `comTotals`, `comKin`, `massSum` …; the generic loop lemmas in
+  `RbdlProofs/Lemmas/Loops.lean` (namespace `Rbdl.Loops`): `lsum z f l = Σ_{i ∈ l} f i`.
+  Every theorem with hypotheses is followed by an `example` instantiating it over `Rat`.
+-/
 namespace Rbdl.C12
-open Lean.Grind Rbdl
-variable {α : Type} [CommRing α]
-theorem placeholder_rot_one : (M3.one : M3 α).IsRot := M3.isRot_one
+open Lean.Grind Rbdl Rbdl.Loops Rbdl.L12
+
+/-! ## 1. the zero-moment point as vector algebra -/
+section ZmpAlgebra
+variable {α : Type} [Field α]
+
+/-- the ZMP lies in the plane through `p` with normal `n` -/
+theorem zmp_on_plane (n p n0 f : V3 α) (h : n.dot f ≠ 0) :
+    n.dot (zmpPoint n p n0 f - p) = 0 := by
+  simp only [alg, zmpPoint] at h ⊢
+  grind
+example : Ex.n.dot (zmpPoint Ex.n Ex.p Ex.n0 Ex.f - Ex.p) = 0 := zmp_on_plane _ _ _ _ Ex.n_dot_f
+
+/-- the moment of the wrench `(n0, f)` about the ZMP has no component tangential to the plane -/
+theorem zmp_no_tangential_moment (n p n0 f : V3 α) (h : n.dot f ≠ 0) :
+    n.cross (n0 - (zmpPoint n p n0 f).cross f) = V3.zero := by
+  simp only [alg, zmpPoint] at h ⊢
+  ext <;> grind
+example : Ex.n.cross (Ex.n0 - (zmpPoint Ex.n Ex.p Ex.n0 Ex.f).cross Ex.f) = V3.zero :=
+  zmp_no_tangential_moment _ _ _ _ Ex.n_dot_f
+
+/-- the two properties determine the point (true as stated: `n·f ≠ 0` is the only side condition) -/
+theorem zmp_unique (n p n0 f z' : V3 α) (h : n.dot f ≠ 0) (h1 : n.dot (z' - p) = 0)
+    (h2 : n.cross (n0 - z'.cross f) = V3.zero) : z' = zmpPoint n p n0 f := by
+  simp only [alg, zmpPoint, V3.mk.injEq] at h h1 h2 ⊢
+  obtain ⟨h2x, h2y, h2z⟩ := h2
+  ext <;> grind
+example (z' : V3 Rat) (h1 : Ex.n.dot (z' - Ex.p) = 0)
+    (h2 : Ex.n.cross (Ex.n0 - z'.cross Ex.f) = V3.zero) : z' = zmpPoint Ex.n Ex.p Ex.n0 Ex.f :=
+  zmp_unique _ _ _ _ z' Ex.n_dot_f h1 h2
+/-- the hypotheses of `zmp_unique` are satisfiable: the ZMP itself has both properties -/
+example : Ex.n.dot (zmpPoint Ex.n Ex.p Ex.n0 Ex.f - Ex.p) = 0 ∧
+    Ex.n.cross (Ex.n0 - (zmpPoint Ex.n Ex.p Ex.n0 Ex.f).cross Ex.f) = V3.zero :=
+  ⟨zmp_on_plane _ _ _ _ Ex.n_dot_f, zmp_no_tangential_moment _ _ _ _ Ex.n_dot_f⟩
+
+/-- `n·f ≠ 0` cannot be dropped: for a force in the plane the formula divides by zero
+    (`1 / 0 = 0` in a `Lean.Grind.Field`) and returns the origin, which is not on the plane -/
+example : Ex.n.dot Ex.fBad = 0 ∧ Ex.n.dot (zmpPoint Ex.n Ex.p Ex.n0 Ex.fBad - Ex.p) ≠ 0 := by
+  refine ⟨Ex.n_dot_fBad, ?_⟩
+  simp only [alg, zmpPoint]
+  grind
+
+end ZmpAlgebra
+
+/-! ## 2. the last lines of `CalcZeroMomentPoint` -/
+section ZmpFormula
+variable {α : Type}
+
+/-- `h3 = Xcom⁻¹* ((Xcom* hdtot) - mass (0, g)) = (hdtot.w - com × (mass g), hdtot.v - mass g)` -/
+theorem zmp_formula [CommRing α] (com g : V3 α) (mass : α) (hdtot : SV α) :
+    (Xtrans com).inverse.applyAdjoint
+        ((Xtrans com).applyAdjoint hdtot - mass * (⟨V3.zero, g⟩ : SV α))
+      = ⟨hdtot.w - com.cross (mass * g), hdtot.v - mass * g⟩ := zmp_wrench com g mass hdtot
+
+variable [Field α]
+
+/-- `CalcZeroMomentPoint` returns `zmpPoint normal point n0 f` for the net moment
+    `n0 = hdtot.w - com × (mass g)` and net force `f = hdtot.v - mass g`, where `(Itot, hdtot)` are
+    the totals of the backward loop, `mass = Itot.m`, `com = Itot.h / mass` -/
+theorem zmp_output (m : ModelS α) (w : WS α) (st : QS α) (qd qdd : VecN α) (normal point : V3 α)
+    (update : Bool) :
+    let T := zmpTotals m w st qd qdd update
+    let mass := T.1.m
+    let com := (1 / mass) * T.1.h
+    (calcZeroMomentPoint m w st qd qdd normal point update).2 =
+      zmpPoint normal point (T.2.w - com.cross (mass * m.gravity)) (T.2.v - mass * m.gravity) := by
+  intro T mass com
+  rw [zmp_raw, zmpH3_eq]
+
+/-- the point returned by `CalcZeroMomentPoint` is on the plane and the contact wrench
+    (`n0`, `f`: inertial minus gravitational) has no tangential moment about it -/
+theorem zmp_output_correct (m : ModelS α) (w : WS α) (st : QS α) (qd qdd : VecN α)
+    (normal point : V3 α) (update : Bool) :
+    let T := zmpTotals m w st qd qdd update
+    let mass := T.1.m
+    let com := (1 / mass) * T.1.h
+    let n0 := T.2.w - com.cross (mass * m.gravity)
+    let f := T.2.v - mass * m.gravity
+    let z := (calcZeroMomentPoint m w st qd qdd normal point update).2
+    normal.dot f ≠ 0 →
+      normal.dot (z - point) = 0 ∧ normal.cross (n0 - z.cross f) = V3.zero := by
+  intro T mass com n0 f z hf
+  have hz : z = zmpPoint normal point n0 f := zmp_output m w st qd qdd normal point update
+  rw [hz]
+  exact ⟨zmp_on_plane _ _ _ _ hf, zmp_no_tangential_moment _ _ _ _ hf⟩
+
+/-- the totals of `CalcZeroMomentPoint` are the sums over all bodies of the base-frame transforms
+    of `I_i` and of `I_i a_i + v_i ×* I_i v_i` (kinematically consistent workspace) -/
+theorem zmp_total (m : ModelS α) (w : WS α) (st : QS α) (qd qdd : VecN α) (update : Bool)
+    (htree : ∀ i, 1 ≤ i → i ≤ m.nBodies - 1 → m.lam i < i)
+    (hbase : ∀ i, 1 ≤ i → i ≤ m.nBodies - 1 →
+      (zmpKin m w st qd qdd update).X_base i =
+        if m.lam i ≠ 0 then (zmpKin m w st qd qdd update).X_lambda i
+            * (zmpKin m w st qd qdd update).X_base (m.lam i)
+        else (zmpKin m w st qd qdd update).X_lambda i)
+    (hrot : ∀ i, 1 ≤ i → i ≤ m.nBodies - 1 → ((zmpKin m w st qd qdd update).X_base i).E.IsRot) :
+    let w0 := zmpKin m w st qd qdd update
+    zmpTotals m w st qd qdd update =
+      (lsum RBI.zero (fun i => (w0.X_base i).applyTransposeRBI (m.rbi i))
+        (List.range' 1 (m.nBodies - 1)),
+       lsum SV.zero (fun i => (w0.X_base i).applyTranspose
+          (m.rbi i * w0.a i + crossf (w0.v i) (m.rbi i * w0.v i)))
+        (List.range' 1 (m.nBodies - 1))) := by
+  intro w0
+  have hk : KinOK m w0 := ⟨htree, hbase, hrot⟩
+  have hb : (zmpInit m w0).X_base = w0.X_base :=
+    zmpInit_keep (fun w => w.X_base) (fun _ _ _ => rfl) m w0 _
+  unfold zmpTotals
+  refine Prod.ext ?_ ?_
+  · show (zmpBwd m (zmpInit m w0)).2.1 = _
+    rw [zmpBwd_Itot m _ hk.zmpInit]
+    refine lsum_congr _ _ _ (fun i hi => ?_)
+    rw [List.mem_range'_1] at hi
+    rw [hb, zmpInit_Ic m w0 i hi.1 (by omega)]
+  · show (zmpBwd m (zmpInit m w0)).2.2 = _
+    rw [zmpBwd_hdtot m _ hk.zmpInit]
+    refine lsum_congr _ _ _ (fun i hi => ?_)
+    rw [List.mem_range'_1] at hi
+    rw [hb, zmpInit_hdotc m w0 i hi.1 (by omega)]
+
+end ZmpFormula
+
+example : zmpKin Ex.m Ex.w C04.Ex.st zeroVec zeroVec false = Ex.w := rfl
+example := zmp_total Ex.m Ex.w C04.Ex.st zeroVec zeroVec false
+  Ex.w_kinOK.tree Ex.w_kinOK.base Ex.w_kinOK.rot
+
+/-- on the one-body model `Ex.m1` the totals evaluate; the net contact force is not in the plane
+    with normal `Ex.n`, so `zmp_output_correct` applies -/
+example :
+    let T := zmpTotals Ex.m1 Ex.w1 C04.Ex.st zeroVec zeroVec false
+    Ex.n.dot (T.2.v - T.1.m * Ex.m1.gravity) ≠ 0 := by
+  intro T
+  have hT : T = (C16.Ex.X.applyTransposeRBI Ex.I1 + RBI.zero,
+      C16.Ex.X.applyTranspose (Ex.I1 * Ex.a1 + crossf Ex.v1 (Ex.I1 * Ex.v1)) + SV.zero) :=
+    zmp_total Ex.m1 Ex.w1 C04.Ex.st zeroVec zeroVec false
+      Ex.w1_kinOK.tree Ex.w1_kinOK.base Ex.w1_kinOK.rot
+  have hg : Ex.m1.gravity = Ex.g := rfl
+  rw [hT, hg]
+  simp only [alg]
+  grind
+
+/-! ## 3. `CalcCenterOfMass`: the totals of the backward loop -/
+section Com
+variable {α : Type} [Field α]
+
+/-- the outputs of `CalcCenterOfMass` in terms of the totals `(Itot, htot)` of its backward loop -/
+theorem com_outputs (m : ModelS α) (w : WS α) (st : QS α) (qd : VecN α) (qdd : Option (VecN α))
+    (wantAcc update : Bool) :
+    let T := comTotals m w st qd qdd wantAcc update
+    let o := (calcCenterOfMass m w st qd qdd wantAcc update).2
+    o.mass = T.1.m ∧ o.com = (1 / T.1.m) * T.1.h ∧ o.comVel = (1 / T.1.m) * T.2.v ∧
+    o.angMom = ((Xtrans o.com).applyAdjoint T.2).w :=
+  ⟨rfl, rfl, rfl, rfl⟩
+
+/-- (L3 for the model's loop) `Itot`, `htot` are the sums over the bodies attached to the root of the
+    transported **final** `Ic[c]`, `hc[c]`, and these satisfy the subtree recursion (L2):
+    only the tree order is needed -/
+theorem com_total_root (m : ModelS α) (w1 : WS α)
+    (htree : ∀ i, 1 ≤ i → i ≤ m.nBodies - 1 → m.lam i < i) :
+    let n := m.nBodies - 1
+    let r := comBwd m w1
+    r.2.1 = lsum RBI.zero (fun c => (w1.X_lambda c).applyTransposeRBI (r.1.Ic c))
+      (childrenOf m.lam n 0) ∧
+    r.2.2 = lsum SV.zero (fun c => (w1.X_lambda c).applyTranspose (r.1.hc c))
+      (childrenOf m.lam n 0) ∧
+    (∀ i, 1 ≤ i → i ≤ n →
+      r.1.Ic i = w1.Ic i + lsum RBI.zero (fun c => (w1.X_lambda c).applyTransposeRBI (r.1.Ic c))
+        (childrenOf m.lam n i)) ∧
+    (∀ i, 1 ≤ i → i ≤ n →
+      r.1.hc i = w1.hc i + lsum SV.zero (fun c => (w1.X_lambda c).applyTranspose (r.1.hc c))
+        (childrenOf m.lam n i)) := by
+  intro n r
+  have hI := comBwd_I m w1
+  have hh := comBwd_h m w1
+  have hI1 : r.1.Ic = forDown n n (bwdBody m.lam (fun c a x => a + TI w1.X_lambda c x)) w1.Ic := by
+    have := congrArg Prod.fst hI
+    rw [tot_fst] at this; exact this
+  have hh1 : r.1.hc = forDown n n (bwdBody m.lam (fun c a x => a + Th w1.X_lambda c x)) w1.hc := by
+    have := congrArg Prod.fst hh
+    rw [tot_fst] at this; exact this
+  refine ⟨?_, ?_, ?_, ?_⟩
+  · have := congrArg Prod.snd hI
+    dsimp only at this
+    show (comBwd m w1).2.1 = _
+    rw [this, tot_sum m.lam (TI w1.X_lambda) rbi_addLaws n htree, rbi_addLaws.zero_add, hI1]
+    rfl
+  · have := congrArg Prod.snd hh
+    dsimp only at this
+    show (comBwd m w1).2.2 = _
+    rw [this, tot_sum m.lam (Th w1.X_lambda) sv_addLaws n htree, sv_addLaws.zero_add, hh1]
+    rfl
+  · intro i h1 h2
+    rw [hI1]
+    exact bwd_sum m.lam (TI w1.X_lambda) rbi_addLaws n htree w1.Ic i (by omega)
+  · intro i h1 h2
+    rw [hh1]
+    exact bwd_sum m.lam (Th w1.X_lambda) sv_addLaws n htree w1.hc i (by omega)
+example := com_total_root Ex.m Ex.w Ex.w_kinOK.tree
+
+/-- **com_total**: for a kinematically consistent workspace (`X_base[i] = X_λ[i] X_base[λ i]`,
+    rotations) `Itot` and `htot` are the sums over all bodies of the base-frame transforms
+    `X_base[i]ᵀ I_i X_base[i]` and `X_base[i]ᵀ (I_i v_i)` -/
+theorem com_total (m : ModelS α) (w : WS α) (st : QS α) (qd : VecN α) (qdd : Option (VecN α))
+    (wantAcc update : Bool)
+    (htree : ∀ i, 1 ≤ i → i ≤ m.nBodies - 1 → m.lam i < i)
+    (hbase : ∀ i, 1 ≤ i → i ≤ m.nBodies - 1 →
+      (comKin m w st qd qdd update).X_base i =
+        if m.lam i ≠ 0 then (comKin m w st qd qdd update).X_lambda i
+            * (comKin m w st qd qdd update).X_base (m.lam i)
+        else (comKin m w st qd qdd update).X_lambda i)
+    (hrot : ∀ i, 1 ≤ i → i ≤ m.nBodies - 1 → ((comKin m w st qd qdd update).X_base i).E.IsRot) :
+    let w0 := comKin m w st qd qdd update
+    comTotals m w st qd qdd wantAcc update =
+      (lsum RBI.zero (fun i => (w0.X_base i).applyTransposeRBI (m.rbi i))
+        (List.range' 1 (m.nBodies - 1)),
+       lsum SV.zero (fun i => (w0.X_base i).applyTranspose (m.rbi i * w0.v i))
+        (List.range' 1 (m.nBodies - 1))) := by
+  intro w0
+  have hk : KinOK m w0 := ⟨htree, hbase, hrot⟩
+  unfold comTotals
+  refine Prod.ext ?_ ?_
+  · show (comBwd m (comInit m w0 _)).2.1 = _
+    rw [comBwd_Itot m _ (hk.comInit _)]
+    refine lsum_congr _ _ _ (fun i hi => ?_)
+    rw [List.mem_range'_1] at hi
+    rw [comInit_X_base, comInit_Ic m w0 _ i hi.1 (by omega)]
+  · show (comBwd m (comInit m w0 _)).2.2 = _
+    rw [comBwd_htot m _ (hk.comInit _)]
+    refine lsum_congr _ _ _ (fun i hi => ?_)
+    rw [List.mem_range'_1] at hi
+    rw [comInit_X_base, comInit_hc m w0 _ i hi.1 (by omega)]
+example : comKin Ex.m Ex.w C04.Ex.st zeroVec none false = Ex.w := rfl
+example := com_total Ex.m Ex.w C04.Ex.st zeroVec none false false
+  Ex.w_kinOK.tree Ex.w_kinOK.base Ex.w_kinOK.rot
+
+/-- total mass = `Σ m_i`; `mass · com = Σ (E_iᵀ h_i + m_i r_i)` (first moments in the base frame) -/
+theorem com_mass_moment (m : ModelS α) (w : WS α) (st : QS α) (qd : VecN α)
+    (qdd : Option (VecN α)) (wantAcc update : Bool)
+    (htree : ∀ i, 1 ≤ i → i ≤ m.nBodies - 1 → m.lam i < i)
+    (hbase : ∀ i, 1 ≤ i → i ≤ m.nBodies - 1 →
+      (comKin m w st qd qdd update).X_base i =
+        if m.lam i ≠ 0 then (comKin m w st qd qdd update).X_lambda i
+            * (comKin m w st qd qdd update).X_base (m.lam i)
+        else (comKin m w st qd qdd update).X_lambda i)
+    (hrot : ∀ i, 1 ≤ i → i ≤ m.nBodies - 1 → ((comKin m w st qd qdd update).X_base i).E.IsRot) :
+    let w0 := comKin m w st qd qdd update
+    let o := (calcCenterOfMass m w st qd qdd wantAcc update).2
+    o.mass = lsum 0 (fun i => (m.rbi i).m) (List.range' 1 (m.nBodies - 1)) ∧
+    (o.mass ≠ 0 → o.mass * o.com =
+      lsum V3.zero (fun i => (w0.X_base i).E.tmulVec (m.rbi i).h + (m.rbi i).m * (w0.X_base i).r)
+        (List.range' 1 (m.nBodies - 1))) := by
+  intro w0 o
+  have ht := com_total m w st qd qdd wantAcc update htree hbase hrot
+  have hm : o.mass = (comTotals m w st qd qdd wantAcc update).1.m := rfl
+  have hc : o.com = (1 / (comTotals m w st qd qdd wantAcc update).1.m)
+      * (comTotals m w st qd qdd wantAcc update).1.h := rfl
+  refine ⟨?_, fun hne => ?_⟩
+  · rw [hm, ht, rbi_lsum_m]; rfl
+  · have hcancel : ∀ (M : α) (h : V3 α), M ≠ 0 → M * ((1 / M) * h) = h := by
+      intro M h hM; ext <;> simp only [alg] <;> grind
+    rw [hc, ← hm, hcancel _ _ hne, ht, rbi_lsum_h]; rfl
+example := com_mass_moment Ex.m Ex.w C04.Ex.st zeroVec none false false
+  Ex.w_kinOK.tree Ex.w_kinOK.base Ex.w_kinOK.rot
+
+end Com
+
+/-! ## 4. kinetic energy -/
+section Kinetic
+variable {α : Type} [Field α]
+
+/-- `CalcKineticEnergy = Σ_{i=1}^{n} ½ v_i · (I_i v_i)` (velocities of the workspace after the
+    optional kinematics update; `update = false`: the given workspace) -/
+theorem kinetic_energy_sum (m : ModelS α) (w : WS α) (st : QS α) (qd : VecN α) (update : Bool) :
+    let w0 := if update then updateKinematicsCustom m w (some st) (some qd) none else w
+    calcKineticEnergy m w st qd update =
+      (w0, lsum 0 (fun i => (w0.v i).dot (m.rbi i * w0.v i) / 2) (List.range' 1 (m.nBodies - 1))) := by
+  intro w0
+  show (w0, forUp (m.nBodies - 1) 1 (fun i acc => acc + (w0.v i).dot (m.rbi i * w0.v i) / 2) 0) = _
+  rw [forUp_add_eq ring_addLaws (fun i => (w0.v i).dot (m.rbi i * w0.v i) / 2),
+    ring_addLaws.zero_add]
+
+theorem kinetic_energy_sum_noupdate (m : ModelS α) (w : WS α) (st : QS α) (qd : VecN α) :
+    calcKineticEnergy m w st qd false =
+      (w, lsum 0 (fun i => (w.v i).dot (m.rbi i * w.v i) / 2) (List.range' 1 (m.nBodies - 1))) :=
+  kinetic_energy_sum m w st qd false
+
+/-- body-frame König decomposition: for `I = createFromMassComInertiaC m c Ic` (`Ic` symmetric)
+    `½ v·(I v) = ½ m |v_c|² + ½ ω·(Ic ω)` with `ω = v.w`, `v_c = v.v + ω × c` -/
+theorem kinetic_koenig (m : α) (c : V3 α) (Ic : M3 α) (hs : Ic.transpose = Ic) (v : SV α) :
+    v.dot (RBI.ofMassComInertiaC m c Ic * v) / 2
+      = m * (v.v + v.w.cross c).nrm2 / 2 + v.w.dot (Ic * v.w) / 2 := by
+  simp only [M3.transpose, M3.ext_iff] at hs
+  simp only [alg]
+  grind
+example (v : SV Rat) : v.dot (RBI.ofMassComInertiaC 2 ⟨1, 0, 1/2⟩ C16.Ex.Ic * v) / 2
+    = 2 * (v.v + v.w.cross ⟨1, 0, 1/2⟩).nrm2 / 2 + v.w.dot (C16.Ex.Ic * v.w) / 2 :=
+  kinetic_koenig _ _ _ C16.Ex.Ic_symm v
+
+/-- both together: for a model whose inertias come from `(mass, com, Ic)` triples (as `AddBody`
+    produces them) the kinetic energy is `Σ ½ m_i |v_{c,i}|² + ½ ω_i·(Ic_i ω_i)` -/
+theorem kinetic_energy_koenig (m : ModelS α) (w : WS α) (st : QS α) (qd : VecN α)
+    (mass : Nat → α) (c : Nat → V3 α) (Ic : Nat → M3 α)
+    (hI : ∀ i, 1 ≤ i → i ≤ m.nBodies - 1 →
+      m.rbi i = RBI.ofMassComInertiaC (mass i) (c i) (Ic i) ∧ (Ic i).transpose = Ic i) :
+    (calcKineticEnergy m w st qd false).2 =
+      lsum 0 (fun i => mass i * ((w.v i).v + (w.v i).w.cross (c i)).nrm2 / 2
+          + (w.v i).w.dot (Ic i * (w.v i).w) / 2) (List.range' 1 (m.nBodies - 1)) := by
+  rw [kinetic_energy_sum_noupdate]
+  refine lsum_congr _ _ _ (fun i hi => ?_)
+  rw [List.mem_range'_1] at hi
+  obtain ⟨h1, h2⟩ := hI i hi.1 (by omega)
+  rw [h1]
+  exact kinetic_koenig _ _ _ h2 _
+example (w : WS Rat) (qd : VecN Rat) :=
+  kinetic_energy_koenig Ex.m w C04.Ex.st qd
+    (fun i => if i = 1 then 2 else if i = 2 then 3 else if i = 3 then 1/2 else 1)
+    (fun i => if i = 1 then ⟨1, 0, 1/2⟩ else if i = 2 then ⟨0, 1, 1⟩
+      else if i = 3 then ⟨-1, 2, 0⟩ else ⟨1/3, 1/3, 1⟩)
+    (fun i => if i = 3 then M3.one else C16.Ex.Ic)
+    (by
+      intro i h1 h2
+      have hn : Ex.m.nBodies = 5 := rfl
+      obtain rfl | rfl | rfl | rfl : i = 1 ∨ i = 2 ∨ i = 3 ∨ i = 4 := by omega
+      all_goals exact ⟨rfl, rfl⟩)
+
+/-- symmetry of `Ic` cannot be dropped (the inertia stores only the lower triangle of `Ic`) -/
+example : ¬ ∀ (Ic : M3 Rat) (v : SV Rat), v.dot (RBI.ofMassComInertiaC 1 V3.zero Ic * v) / 2
+    = 1 * (v.v + v.w.cross V3.zero).nrm2 / 2 + v.w.dot (Ic * v.w) / 2 := by
+  intro h
+  have := h ⟨0, 1, 0, 0, 0, 0, 0, 0, 0⟩ ⟨⟨1, 1, 0⟩, V3.zero⟩
+  simp only [alg] at this
+  grind
+
+end Kinetic
+
+/-! ## 5. potential energy -/
+section Potential
+variable {α : Type} [Field α]
+
+/-- `CalcPotentialEnergy = mass · com·(−g)` of the `CalcCenterOfMass` outputs (velocities zero) -/
+theorem potential_energy_def (m : ModelS α) (w : WS α) (st : QS α) (update : Bool) :
+    calcPotentialEnergy m w st update =
+      ((calcCenterOfMass m w st zeroVec none false update).1,
+       (calcCenterOfMass m w st zeroVec none false update).2.mass
+        * (calcCenterOfMass m w st zeroVec none false update).2.com.dot (-m.gravity)) := rfl
+
+/-- `Σ m_i c_i·(−g) = M C·(−g)` for `M = Σ m_i ≠ 0`, `C = (Σ m_i c_i) / M` -/
+theorem potential_energy_list (g : V3 α) (l : List (α × V3 α)) (hM : massSum l ≠ 0) :
+    peSum g l = massSum l * ((1 / massSum l) * momentSum l).dot (-g) := by
+  rw [peSum_eq]
+  generalize massSum l = M at hM
+  generalize momentSum l = h
+  simp only [alg]
+  grind
+example : peSum Ex.g Ex.pts = massSum Ex.pts * ((1 / massSum Ex.pts) * momentSum Ex.pts).dot (-Ex.g) :=
+  potential_energy_list _ _ Ex.pts_mass
+
+/-- the potential energy of the model is the sum of the potential energies of the bodies
+    (`E_iᵀ h_i + m_i r_i` = mass times base-frame position of the centre of mass of body `i`) -/
+theorem potential_energy_sum (m : ModelS α) (w : WS α) (st : QS α) (update : Bool)
+    (htree : ∀ i, 1 ≤ i → i ≤ m.nBodies - 1 → m.lam i < i)
+    (hbase : ∀ i, 1 ≤ i → i ≤ m.nBodies - 1 →
+      (comKin m w st zeroVec none update).X_base i =
+        if m.lam i ≠ 0 then (comKin m w st zeroVec none update).X_lambda i
+            * (comKin m w st zeroVec none update).X_base (m.lam i)
+        else (comKin m w st zeroVec none update).X_lambda i)
+    (hrot : ∀ i, 1 ≤ i → i ≤ m.nBodies - 1 →
+      ((comKin m w st zeroVec none update).X_base i).E.IsRot)
+    (hmass : (calcCenterOfMass m w st zeroVec none false update).2.mass ≠ 0) :
+    let w0 := comKin m w st zeroVec none update
+    (calcPotentialEnergy m w st update).2 =
+      lsum 0 (fun i => ((w0.X_base i).E.tmulVec (m.rbi i).h + (m.rbi i).m * (w0.X_base i).r).dot
+        (-m.gravity)) (List.range' 1 (m.nBodies - 1)) := by
+  intro w0
+  have h := (com_mass_moment m w st zeroVec none false update htree hbase hrot).2 hmass
+  have hdot : ∀ (M : α) (c g : V3 α), M * c.dot g = (M * c).dot g := by
+    intro M c g; simp only [alg]; grind
+  show (calcCenterOfMass m w st zeroVec none false update).2.mass
+        * (calcCenterOfMass m w st zeroVec none false update).2.com.dot (-m.gravity) = _
+  rw [hdot, h, v3_lsum_dot]
+
+end Potential
+
+/-! ## 6. the same with `update_kinematics = true`, hypotheses on the model and the state only -/
+section Updated
+variable {α : Type} [Field α]
+
+/-- `com_total` for `update_kinematics = true`: for a model in tree order with joints of the types
+    `jcalc` handles, rotation joint frames, and a state with unit (cos, sin) pairs / axes /
+    quaternions, the totals are the sums over all bodies of the base-frame transforms -/
+theorem com_total_updated (m : ModelS α) (w : WS α) (st : QS α) (qd : VecN α)
+    (qdd : Option (VecN α)) (wantAcc : Bool)
+    (htree : ∀ i, 1 ≤ i → i < m.nBodies → m.lam i < i)
+    (hjc : ∀ i, 1 ≤ i → i < m.nBodies → (m.joint i).jt.hasJcalc = true)
+    (hframe : ∀ i, 1 ≤ i → i < m.nBodies → (m.XT_ i).E.IsRot)
+    (hunit : ∀ i, 1 ≤ i → i < m.nBodies → m.jointUnit i st)
+    (h0 : (w.X_base 0).E.IsRot) :
+    let w0 := updateKinematicsCustom m w (some st) (some qd) qdd
+    comTotals m w st qd qdd wantAcc true =
+      (lsum RBI.zero (fun i => (w0.X_base i).applyTransposeRBI (m.rbi i))
+        (List.range' 1 (m.nBodies - 1)),
+       lsum SV.zero (fun i => (w0.X_base i).applyTranspose (m.rbi i * w0.v i))
+        (List.range' 1 (m.nBodies - 1))) := by
+  have hk := kinOK_ukc m w st qd qdd htree hjc hframe hunit h0
+  exact com_total m w st qd qdd wantAcc true hk.tree hk.base hk.rot
+
+/-- `zmp_total` for `update_kinematics = true` -/
+theorem zmp_total_updated (m : ModelS α) (w : WS α) (st : QS α) (qd qdd : VecN α)
+    (htree : ∀ i, 1 ≤ i → i < m.nBodies → m.lam i < i)
+    (hjc : ∀ i, 1 ≤ i → i < m.nBodies → (m.joint i).jt.hasJcalc = true)
+    (hframe : ∀ i, 1 ≤ i → i < m.nBodies → (m.XT_ i).E.IsRot)
+    (hunit : ∀ i, 1 ≤ i → i < m.nBodies → m.jointUnit i st)
+    (h0 : (w.X_base 0).E.IsRot) :
+    let w0 := updateKinematicsCustom m w (some st) (some qd) (some qdd)
+    zmpTotals m w st qd qdd true =
+      (lsum RBI.zero (fun i => (w0.X_base i).applyTransposeRBI (m.rbi i))
+        (List.range' 1 (m.nBodies - 1)),
+       lsum SV.zero (fun i => (w0.X_base i).applyTranspose
+          (m.rbi i * w0.a i + crossf (w0.v i) (m.rbi i * w0.v i)))
+        (List.range' 1 (m.nBodies - 1))) := by
+  have hk := kinOK_ukc m w st qd (some qdd) htree hjc hframe hunit h0
+  exact zmp_total m w st qd qdd true hk.tree hk.base hk.rot
+
+end Updated
+
+example (qd : VecN Rat) (qdd : Option (VecN Rat)) := com_total_updated Ex.m C04.Ex.w C04.Ex.st qd qdd
+  true Ex.m_tree Ex.m_hasJcalc Ex.m_frames Ex.m_unit C04.Ex.w_base0
+example (qd qdd : VecN Rat) := zmp_total_updated Ex.m C04.Ex.w C04.Ex.st qd qdd
+  Ex.m_tree Ex.m_hasJcalc Ex.m_frames Ex.m_unit C04.Ex.w_base0
+
 end Rbdl.C12
